@@ -200,9 +200,17 @@ def gen_dom(rng, maxL, maxops):
     case = {'L': gen_len(rng, maxL)}
     case['dr' if rng.random() < 0.5 else 'dk'] = gen_spacing(rng)
     ops = []
+    last = {'dr': case.get('dr'), 'dk': case.get('dk')}
     for _ in range(rng.choice([0, 0, 1, 1, 2, 3, rng.randint(0, maxops)])):
         k = rng.choice(['dr', 'dk', 'length', 'length'])
-        ops.append([k, gen_len(rng, maxL) if k == 'length' else gen_spacing(rng)])
+        if k == 'length': v = gen_len(rng, maxL)
+        else:
+            c = rng.random()
+            if c < 0.2 and last[k] is not None: v = last[k] * (1 + rng.choice([1e-6, -3e-6, 8e-6, 1e-9]))    # a genuine change below np.isclose's default tolerances
+            elif c < 0.3: v = float('%.4g' % (10 ** rng.uniform(-10, -8)))                                   # tiny absolute spacings
+            else: v = gen_spacing(rng)
+            last[k] = v; last['dk' if k == 'dr' else 'dr'] = None
+        ops.append([k, v])
     case['ops'] = ops
     return case
 
